@@ -82,7 +82,13 @@ def gen(rng, max_n=8, p_sel=0.3, p_fail=0.06, mixed=True):
     # the whole graph described in an INNER DAG that the executed DAG calls: the spliced nodes ("inner.n3") must keep
     # every attribute they were declared with (priority, is_sequential, resource, tag, activation flag)
     sc["nested"] = rng.random() < 0.2
-    if sc["sel"] is None and rng.random() < 0.4:
+    if (not sc["nested"]) and all(not (s_["flag"] and s_["flag"][0] == "c") for s_ in specs) and rng.random() < 0.12:
+        # the DAG is NOT traced: its node table is handed to the constructor (hand-built ExecNodes), listed in a random
+        # order — the scheduler only knows the dependency graph, never the listing order
+        order = list(range(n))
+        rng.shuffle(order)
+        sc["handbuilt"] = order
+    elif sc["sel"] is None and rng.random() < 0.4:
         # how a node receives each predecessor's result: positional / by keyword, whole / the indexed element v[0]
         # (what arrives must be exactly the value after the indexing the description wrote)
         for s_ in specs:
@@ -306,7 +312,33 @@ def norm_id(x):
     return x[6:] if isinstance(x, str) and x.startswith("inner.") else x
 
 
+def build_handbuilt(sc):
+    from tawazi import DAG, AsyncDAG
+    from tawazi._helpers import StrictDict
+    from tawazi.node import ExecNode, UsageExecNode
+    table = {}
+    for i in sc["handbuilt"]:
+        s = sc["specs"][i]
+
+        def body(*args, i=i, s=s):
+            control.node_enter(i, args)
+            if s["fail"]:
+                raise Boom(i)
+            return value(i, s, args)
+        body.__name__ = body.__qualname__ = "impl_of_node_%d" % i
+        active = UsageExecNode("n%d" % s["flag"][1]) if s["flag"] else None
+        kw = dict(tag=s["tag"]) if s.get("tag") else {}
+        table["n%d" % i] = ExecNode(id_="n%d" % i, exec_function=body, args=[UsageExecNode("n%d" % p) for p in s["preds"]],
+                                    priority=s["prio"], is_sequential=s["seq"], resource=RES[s["res"]], active=active, **kw)
+    cls = AsyncDAG if sc["is_async"] else DAG
+    return cls(qualname="describe", results=StrictDict({}), exec_nodes=StrictDict(table), input_uxns=[],
+               return_uxns=tuple(UsageExecNode("n%d" % i) for i in range(sc["n"])), max_concurrency=sc["maxc"])
+
+
 def build(sc):
+    if sc.get("handbuilt"):
+        PREFIX[0] = ""
+        return build_handbuilt(sc)
     nodes = [make_node(i, s) for i, s in enumerate(sc["specs"])]
     PREFIX[0] = "inner." if sc.get("nested") else ""
 
@@ -669,9 +701,12 @@ def monitors(sc, obs):
             if not m or not m.group(1).endswith("slice_s.py"):
                 bad("C14", "missing-call-location", message=str(exc))
         elif isinstance(exc, Boom) and exc.args and exc.args[0] in started:
-            # the original exception is what the call raises when NO call location is known; every node of these
-            # scenarios is created by a call in build()'s describing function, so the location is always known
-            bad("C14", "bare-original-exception-although-location-known", node=exc.args[0], message=str(exc)[:100])
+            # the original exception is what the call raises when NO call location is known (hand-built ExecNodes); every
+            # node of a traced scenario is created by a call in build()'s describing function: its location is known
+            if not sc.get("handbuilt"):
+                bad("C14", "bare-original-exception-although-location-known", node=exc.args[0], message=str(exc)[:100])
+            elif not (specs[exc.args[0]]["fail"] and exc.args[0] in selected):
+                bad("C14", "unattributable-exception", exc=type(exc).__name__, message=str(exc)[:200], must_fail=must_fail)
         else:
             bad("C14", "unattributable-exception", exc=type(exc).__name__, message=str(exc)[:200],
                 must_fail=must_fail)
